@@ -202,9 +202,7 @@ func runShrinkOnce(c *t38.Conn, g *shrinkGates, at func(gate string, occurrence 
 func shrinkOne(ci int, sc *shrinkCase) ([]shrinkMismatch, map[string]int, error) {
 	var out []shrinkMismatch
 	g := &shrinkGates{arrived: make(chan string), release: make(chan struct{})}
-	port := t38.FreePort()
-	t38.SetHook(port, g.hook)
-	srv, err := t38.Start(t38.Options{Port: port})
+	srv, err := t38.Start(t38.Options{Hook: g.hook})
 	if err != nil {
 		return nil, nil, err
 	}
@@ -335,9 +333,7 @@ func shrinkOne(ci int, sc *shrinkCase) ([]shrinkMismatch, map[string]int, error)
 			return nil, nil, fmt.Errorf("crash point %s was never reached", sc.Crash)
 		}
 		g3 := &shrinkGates{arrived: make(chan string), release: make(chan struct{})}
-		port3 := t38.FreePort()
-		t38.SetHook(port3, g3.hook)
-		s3, err := t38.Start(t38.Options{Dir: crashDir, Port: port3})
+		s3, err := t38.Start(t38.Options{Dir: crashDir, Hook: g3.hook})
 		if err != nil {
 			out = append(out, shrinkMismatch{ci, "crash", fmt.Sprintf("killed at %s: server does not start: %v", sc.Crash, err)})
 			os.RemoveAll(crashDir)
